@@ -787,6 +787,12 @@ def run(ctx: Ctx) -> None:
     check_mangling(ctx)
     check_getstate_purity(ctx)
     check_pickle_helpers(ctx)
+    # JSONGrammar pickles its CACHED schema: the state restores the same grammar only if that cache is reset by every
+    # edit (C15 rule 15.1), otherwise an object pickled after a rename / namespace change restores with the old names
+    from gv.props import c15
+    from gv.props.c12 import _Prefixed
+
+    c15.check_json(_Prefixed(ctx, "20.7-current-schema/"))
 
 
 _SOB = "problems/mdo/sobieski/disciplines.py"
